@@ -68,7 +68,7 @@ func checkC16(c *Ctx, r *Report) {
 			r2.Check(len(args) == 5 && isRemotePeerOfS(fn)(args[2]), serve+": dialBack peer argument", instrPos(db), 1, "",
 				"peer handed to dialBack is not s.Conn().RemotePeer()", describeVal(args[2]))
 			if len(args) == 5 {
-				if p, ok := args[3].(*ssa.Phi); ok && p.Comment == "dialAddr" {
+				if p, ok := args[3].(*ssa.Phi); ok {
 					dialAddrPhi = p
 				}
 				r2.Check(dialAddrPhi != nil && args[3] == ssa.Value(dialAddrPhi), serve+": dialBack address argument", instrPos(db), 1, "",
